@@ -160,6 +160,7 @@ class Schema:
                 sub = Slice(c); v = self.decode(ty[1], sub, env)
                 if sub.bits_left() or sub.refs_left():
                     raise TlbError(f'ref of {ty[1]} not fully consumed: {sub.bits_left()} bits {sub.refs_left()} refs left')
+                if isinstance(v, dict) and '@c' in v: v['@cell'] = c     # the referenced cell itself (for parsers that keep it raw)
                 return v
             if k == 'anon': return self.decode_fields(ty[1], s, dict(env))[0]
             if k == 'cond':
